@@ -223,7 +223,7 @@ func targeted(cfg Config, p *program) map[string]bool {
 		case pt == "." || pt == "./...":
 			t[cfg.Cwd] = true
 		case strings.HasPrefix(pt, "./"):
-			t[pt[2:]] = true
+			t[filepath.ToSlash(filepath.Clean(filepath.Join(filepath.FromSlash(cfg.Cwd), filepath.FromSlash(pt[2:]))))] = true
 		case strings.HasPrefix(pt, "example.com/"):
 			t[pt[len("example.com/"):]] = true
 		case strings.HasPrefix(pt, "{ROOT}/"):
@@ -446,7 +446,16 @@ func GenConfigs(r *rand.Rand, pkgs []string, n int, layouts bool) []Config {
 				continue
 			}
 			pd := pkgs[r.IntN(len(pkgs))]
-			switch r.IntN(4) {
+			switch r.IntN(5) {
+			case 4:
+				// from inside one package, naming another one by a relative path that climbs out with ..
+				other := pkgs[r.IntN(len(pkgs))]
+				rel, err := filepath.Rel(filepath.FromSlash(pd), filepath.FromSlash(other))
+				if err != nil || other == pd {
+					c.Cwd, c.Patterns = pd, []string{"."}
+				} else {
+					c.Cwd, c.Patterns = pd, []string{"./" + filepath.ToSlash(rel)}
+				}
 			case 0:
 				c.Cwd, c.Patterns = pd, []string{"."}
 			case 1:
